@@ -497,6 +497,11 @@ func (ca *ConnlistAnalyzer) getConnectionsList(pe *eval.PolicyEngine, ia *ingres
 func (ca *ConnlistAnalyzer) existsFocusWorkload(excludeIngressAnalysis bool) (existFocusWorkload bool, warning string) {
 	if ca.focusWorkload == common.IngressPodName {
 		if excludeIngressAnalysis { // if the ingress-analyzer is empty,
+			for _, peer := range ca.peersList { // a real workload may happen to have this name
+				if ca.isPeerFocusWorkload(peer) {
+					return true, ""
+				}
+			}
 			// then no routes/k8s-ingress objects -> ingress-controller pod will not be added
 			return false, netpolerrors.NoIngressSourcesErrStr + netpolerrors.EmptyConnListErrStr
 		}
